@@ -74,11 +74,11 @@ func vtaCrossCheck(c *Ctx) map[string]interface{} {
 		gapList = gapList[:20]
 	}
 	return map[string]interface{}{
-		"whole_program_functions": len(all),
+		"whole_program_functions":          len(all),
 		"vta_edges_between_repo_functions": edges,
-		"dynamic_edges_checked":           dyn,
-		"edges_missing_in_checker_graph":  gaps,
-		"missing":                         gapList,
-		"note":                            "soundness cross-check of the checker's call graph; a missing edge is a modelling gap, not a verdict about fabio",
+		"dynamic_edges_checked":            dyn,
+		"edges_missing_in_checker_graph":   gaps,
+		"missing":                          gapList,
+		"note":                             "soundness cross-check of the checker's call graph; a missing edge is a modelling gap, not a verdict about fabio",
 	}
 }
